@@ -6,8 +6,10 @@ From ML Require Import Model.Types Model.Mask Proofs.MaskProofs.
 Open Scope Z_scope.
 
 (* what the dispatch asks at each level, for EVERY mask (any and/or nesting, also across levels):
-   a chord is entered iff the chord-level guards hold on it; *)
-Theorem C18_dispatch_chord : forall m co, o_level co = LChord -> call m co = geval (env_chord co) co m.
+   a chord is entered (and, by a chord-level transformer, transformed) iff the score- and chord-level guards hold:
+   the mask's own verdict on the chord with its score; *)
+Theorem C18_dispatch_chord : forall m so co, o_level so = LScore -> o_level co = LChord ->
+  call (child m so) co = geval (env_chord so co) co m.
 Proof. exact chord_verdict. Qed.
 
 (* a melody is entered iff the score- and melody-level guards hold (chord guards already spent); *)
@@ -24,9 +26,15 @@ Proof. exact note_verdict. Qed.
    together are exactly what the mask says of the note with all its ancestors: the transformer changes exactly
    what the mask selects *)
 Theorem C18_dispatch_natural : forall m so co po no, separable m = true ->
-  geval (env_chord co) co m && geval (env_melody so po) po m && geval (env_note so co no) no m
+  geval (env_chord so co) co m && geval (env_melody so po) po m && geval (env_note so co no) no m
   = geval (env_all so co po no) no m.
 Proof. exact separable_natural. Qed.
+
+(* ... and for melody-level transformers the chord gate and the melody gate together are the mask's verdict on the melody
+   with its chord and its score *)
+Theorem C18_dispatch_natural_melody : forall m so co po, separable m = true ->
+  geval (env_chord so co) co m && geval (env_melody so po) po m = geval (env_melody_all so co po) po m.
+Proof. exact separable_natural_melody. Qed.
 
 (* ~ negates the verdict of a guard on the elements of its level *)
 Theorem C18_invert : forall lv p o, inner p = true -> o_level o = lv ->
